@@ -196,3 +196,29 @@ func verifC10FailedStartRun() {
 	vObserve("failures", int64(nfail))
 	vWitness("c10failedstartrun-end")
 }
+
+// verifC10Requests: a control request queued for the core loop (through the real
+// SourceControl.runLaterIfActive) races with Stop called on the source and, for the erroring
+// source, with the source ending itself: under every schedule within the bounds both calls
+// return, nothing deadlocks, and the source ends inactive with its goroutines gone.
+func verifC10Requests() {
+	vWatchdog(20)
+	kind := vRange("source", 0, 1)
+	sc := c11Start(kind)
+	ds := sc.ActiveSource
+	reqDone := make(chan error, 1)
+	stopDone := make(chan error, 1)
+	go func() {
+		var d, reply bool
+		reqDone <- sc.StopTriggerCoupling(&d, &reply)
+	}()
+	go func() { stopDone <- ds.Stop() }()
+	<-reqDone // the request is answered (served, or refused because the source is gone)
+	<-stopDone
+	vSettle(50)
+	vCheck(ds.GetState() == Inactive, "after Stop has returned the source is inactive")
+	n := vLiveGoroutines()
+	vCheck(n <= 1, "only the harness's status consumer is left running") // c11Start's consumer goroutine
+	vObserve("kind", int64(kind))
+	vWitness("c10requests-end")
+}
